@@ -48,7 +48,11 @@ BASES = [
     ('lambda', "f = lambda a, *b, c=1, **d: a\n", '<lambda>'),
     ('listcomp', "x = [i for i in y]\n", '<listcomp>'),
     ('annot', "from __future__ import annotations\ndef f(a: int): return a\n", 'f'),
-]
+    ('kwonly', "def f(*, k):\n    return k\n", 'f'),
+    ('varargs', "def f(*a):\n    return a\n", 'f'),
+    ('varkw', "def f(**k):\n    return k\n", 'f'),
+    ('one-arg', "def f(a):\n    return a\n", 'f'),
+] + ([('posonly', "def f(a, /):\n    return a\n", 'f'), ('posonly2', "def f(a, b, /, c):\n    return a\n", 'f')] if V >= (3, 8) else [])
 
 
 def base_code(name):
@@ -151,6 +155,14 @@ def run_C11(w):
                 if rng.random() < .2:
                     x |= 1 << b
             inputs.append({'kind': 'header', 'base': name, 'xor': x})
+        # every way of clearing / setting the function bits and the argument flags together
+        for m in range(1, 16):
+            inputs.append({'kind': 'header', 'base': name, 'xor': m})
+        for m in (0x20, 0x80, 0x200, 0xa0, 0x220, 0x280, 0x10, 0x40, 0x50, 0x100):
+            inputs.append({'kind': 'header', 'base': name, 'xor': m})
+            inputs.append({'kind': 'header', 'base': name, 'xor': m | 3})
+        for dlt in (-2, -1, 1, 2):
+            inputs.append({'kind': 'header', 'base': name, 'co_nlocals': dlt})
         for a in ('co_argcount', 'co_kwonlyargcount', 'co_posonlyargcount'):
             for dlt in (-2, -1, 1, 2, 5):
                 inputs.append({'kind': 'header', 'base': name, a: dlt})
